@@ -709,8 +709,16 @@ func returnsError(f *types.Func) (int, bool) {
 }
 
 func ruleR16a(c *Ctx, r *Report) {
+	n := checkErrDiscipline(c, r, writePathFuncs, false)
+	r.Count("error-returning calls on the write path", n)
+}
+
+// checkErrDiscipline: in each listed function, no error result is dropped, and
+// from the non-nil outcome of every error-returning call each reachable return
+// carries a non-nil error.
+func checkErrDiscipline(c *Ctx, r *Report, specs []fnSpec, eofIsCleanEnd bool) int {
 	n := 0
-	for _, sp := range writePathFuncs {
+	for _, sp := range specs {
 		fn, err := c.Func(sp.pkg, sp.recv, sp.name)
 		if err != nil {
 			r.InfraFail("%v", err)
@@ -771,8 +779,25 @@ func ruleR16a(c *Ctx, r *Report) {
 				r.Viol(key, c.Pos(in.Pos()), "the error returned by "+fk+" is neither tested nor returned")
 				return
 			}
+			var eofCut EdgeSet
+			if eofIsCleanEnd {
+				// `err == io.EOF` is the documented clean end of a scan, not a swallowed failure
+				eofCut = EdgeSet{}
+				for _, e := range condEdges(fn, func(base ssa.Value) (bool, bool) {
+					b, ok := base.(*ssa.BinOp)
+					if !ok || (b.Op != token.EQL && b.Op != token.NEQ) {
+						return false, false
+					}
+					if (closure[b.X] && isGlobalLoad(b.Y, "io", "EOF")) || (closure[b.Y] && isGlobalLoad(b.X, "io", "EOF")) {
+						return true, b.Op == token.EQL
+					}
+					return false, false
+				}) {
+					eofCut[e] = true
+				}
+			}
 			for _, e := range nonNil {
-				rr := reachFromEdge(fn, e, nil)
+				rr := reachFromEdge(fn, e, eofCut)
 				for _, ret := range returnsOf(fn) {
 					if !rr[ret.Block()] || len(ret.Results) == 0 {
 						continue
@@ -787,7 +812,7 @@ func ruleR16a(c *Ctx, r *Report) {
 			r.Hold(key, c.Pos(in.Pos()), "error tested/returned; failure outcome reaches only error-carrying returns")
 		})
 	}
-	r.Count("error-returning calls on the write path", n)
+	return n
 }
 
 func ruleR16d(c *Ctx, r *Report) {
